@@ -161,7 +161,7 @@ pub fn checks() -> Vec<Check> {
         id: "C06",
         level: "model_checking",
         stages: vec![
-            st("c06.product", c06::product, (0, 0), 3, "full product: blob length 0..=1023 x all 255 aligned start residues; payload source delivering in full / in halves / alternating (rotated)"),
+            st("c06.product", c06::product, (0, 0), 3, "full product: blob length 0..=1023 (thorough 0..=3071) x all 255 aligned start residues; payload source delivering in full / in halves / alternating (rotated)"),
             st("c06.long", c06::long, (0, 0), 3, "multi-page lengths 1020k+d (k=1..3, d=-20..20), 2^k-1, 2^k, 2^k+1 for k=12..17 and 20, 200000 x 16 residues x 3 fill patterns x 3 source read modes"),
             st("c06.neighbours", c06::neighbours, (0, 0), 3, "all programs of depth <=3 over blobs, every image kind with/without mask, cloud; unique payload patterns"),
             st("c06.behind", c06::behind, (0, 0), 3, "a blob and an image with masks (one empty) behind 100 KiB .. 4 MiB of other content x {nothing, a blob, a cloud} behind them"),
@@ -340,6 +340,7 @@ pub fn checks() -> Vec<Check> {
             st("c18.proto_extensions", c18::proto_extensions, (0, 0), 3, "extension attribute named like 6 standard attributes and 6 other accepted names x 5 namespace prefixes x every position in the prototype x optional second extension attribute: written by the real writer, read back exactly"),
             st("c18.scoped_ns", c18::scoped_ns, (0, 0), 3, "2 documents x 2 extension prefixes x declaration moved from e57Root to {record element, prototype, points, data3D child}: prototype names, points and metadata reported as before"),
             st("c18.depth", c18::depth, (0, 0), 3, "2 documents x {below e57Root, inside a data3D child} x foreign elements nested to a maximum depth of 100 / 200 / 254 / 255 / 256 tags (256 is the documented limit): report unchanged"),
+            st("c18.pairs", c18::pairs, (0, 0), 2, "two foreign elements at once: 6 documents x every ordered pair of insertion positions (the first named like the element that follows it, the second a nested box with a rotating name)"),
         ],
         extra: None,
         rule: "full products; the inserted content is always in a namespace different from the E57 namespace (prefix declared on the inserted element) and well-formed (checked with the independent parser); oracle = the report on the unmodified base document (root fields, every descriptor, points and blobs); evaluations = (position, name, shape) triples",
